@@ -138,6 +138,26 @@ def run_case(run, drv, case_seed, max_len):
                 run.fail("impl-vs-spec", dict(case, step=step), {"raised": repr(exc)})
                 break
             raw1 = open(m["path"], "rb").read()
+            if not via_cli and rng.random() < 0.3:
+                # a caller that keeps ONE request dictionary and applies it to a second copy of
+                # the same metafile: both copies must end up equal and the request unchanged
+                twin_a, twin_b = os.path.join(box, "twin-a.torrent"), os.path.join(box, "twin-b.torrent")
+                for t in (twin_a, twin_b):
+                    with open(t, "wb") as fd:
+                        fd.write(raw0)
+                shared = impl.SharedRequest(req)
+                try:
+                    impl.edit(twin_a, shared)
+                    impl.edit(twin_b, shared)
+                    same = open(twin_a, "rb").read() == open(twin_b, "rb").read() == raw1
+                except Exception as exc:
+                    same = repr(exc)
+                if same is not True or dict(shared) != dict(req):
+                    run.fail("impl-vs-spec", dict(case, step=step),
+                             {"why": "a request dictionary used for two metafiles: results differ or the "
+                                     "caller's dictionary was changed", "equal": same,
+                              "request_after": {k: repr(v) for k, v in shared.items()}})
+                    break
             after = refspec.lenient_decode(raw1)
             want, unjudged = spec_apply(before, req)
             named_info = any(req[f] is not None for f in ("comment", "source", "private"))
